@@ -86,6 +86,7 @@ def main(argv=None):
     ap.add_argument("--only", help="substring filter on contract targets (debugging)")
     args = ap.parse_args(argv)
     tier = args.tier if args.tier in ("quick", "thorough") else "quick"
+    os.environ["VERIF_TIER"] = tier     # contract modules with tier-dependent instance sets (TIERED = True) read it; inherited by subprocesses
     seed = int(os.environ.get("VERIF_SEED", "0") or 0)
     pid = args.prop
     os.environ.setdefault("OSU_REPO", "/repo")
@@ -130,7 +131,12 @@ def do_check(pid, tier, seed, args, t0):
     os.makedirs(os.path.join(HERE, "evidence"), exist_ok=True)
 
     violations, known_hits, undecided, errors = [], [], [], []
-    exp_path0 = os.path.join(HERE, "contracts", f"{pid}.expected.json")
+    # modules whose instance set depends on the tier (TIERED = True) keep a second name list / hint file for the thorough tier
+    tsfx = ".thorough" if (tier == "thorough" and getattr(M, "TIERED", False)) else ""
+    exp_path0 = os.path.join(HERE, "contracts", f"{pid}.expected{tsfx}.json")
+    if tsfx and not os.path.exists(exp_path0) and not args.update_expected:
+        tsfx = ""
+        exp_path0 = os.path.join(HERE, "contracts", f"{pid}.expected.json")
     expected_names = set(json.load(open(exp_path0))) if os.path.exists(exp_path0) else None
     reports = []
     for c in contracts:
@@ -151,7 +157,7 @@ def do_check(pid, tier, seed, args, t0):
     EXPECTED[0] = expected_names
     del UNDECIDED_EXTRA[:]
     ts = time.time()
-    hints_path = os.path.join(HERE, "contracts", f"{pid}.hints.json")
+    hints_path = os.path.join(HERE, "contracts", f"{pid}.hints{tsfx}.json")
     hints = json.load(open(hints_path)) if os.path.exists(hints_path) and not os.environ.get("OSU_NO_HINTS") else None
     verify.solve(reports, timeout_ms=timeout_ms, hints=hints)
     solver_wall = time.time() - ts
@@ -239,7 +245,7 @@ def do_check(pid, tier, seed, args, t0):
             errors.append(f"bounded {b.name}: {type(e).__name__}: {e}\n{traceback.format_exc()[-1500:]}")
 
     # expected obligations (guards against silently losing part of the proved core)
-    exp_path = os.path.join(HERE, "contracts", f"{pid}.expected.json")
+    exp_path = os.path.join(HERE, "contracts", f"{pid}.expected{tsfx}.json")
     if args.update_expected:
         with open(exp_path, "w") as f:
             json.dump(sorted(set(obligation_names)), f, indent=0)
